@@ -394,6 +394,7 @@ func init() {
 				b.TimeoutS = int(d.Pick(300, 900))
 				specs = append(specs, b)
 			}
+			specs = d.WithRuntimeVariants(specs, int(d.Pick(3, 1)), func(s Spec) bool { return s.Kind == "cons" })
 			outs := d.RunWorkers(specs, 16)
 			d.raceVerdict(outs)
 		},
